@@ -406,17 +406,18 @@ theorem ltok_text (ext : IExt) (lx : LExt) : ∀ lvl c, LTok ext lx (mkInlineTok
     `link_open` whose first attribute is an `href` that arose legitimately -/
 structure LinkN (ext : IExt) (lx : LExt) (N : Tok → Prop) : Prop where
   flat : ∀ t, t.children = none → t.type = "text" ∨ t.type = "link_close" → N t
-  linkOpen : ∀ t href, t.children = none → t.type = "link_open" → t.attrs.head? = some ("href", .s (String.ofList href)) → LinkSrc ext lx href → N t
+  linkOpen : ∀ t href (label : List Char), t.children = none → t.type = "link_open" → t.attrs.head? = some ("href", .s (String.ofList href)) →
+    t.metaD = (if !label.isEmpty && lx.storeLabels then [("label", String.ofList label)] else []) → LinkSrc ext lx href → N t
 
 theorem LinkN.text {ext : IExt} {lx : LExt} {N : Tok → Prop} (h : LinkN ext lx N) : ∀ lvl c, N (mkInlineTok "text" "" 0 lvl c "" "") :=
   fun _ _ => h.flat _ rfl (.inl rfl)
 
 theorem ltok_linkN (ext : IExt) (lx : LExt) : LinkN ext lx (LTok ext lx) :=
-  ⟨fun t _ h => ltok_other ext lx t (by rcases h with h | h <;> rw [h] <;> decide), fun _ href _ _ ha hs _ => ⟨href, ha, hs⟩⟩
+  ⟨fun t _ h => ltok_other ext lx t (by rcases h with h | h <;> rw [h] <;> decide), fun _ href _ _ _ ha _ hs _ => ⟨href, ha, hs⟩⟩
 
 theorem pushOpen_tokens (s : IState) (ty tag : String) (a : List (String × AttrVal)) (md : List (String × String)) :
     ∃ (flush : List Tok) (t : Tok), (s.pushOpen ty tag a md).tokens = s.tokens ++ flush ++ [t] ∧ t.type = ty ∧ t.attrs = a
-      ∧ t.children = none ∧ (∀ x ∈ flush, x.type = "text" ∧ x.children = none) := by
+      ∧ t.children = none ∧ t.metaD = md ∧ (∀ x ∈ flush, x.type = "text" ∧ x.children = none) := by
   unfold IState.pushOpen IState.pushA
   simp only
   obtain ⟨lvl, lvl', p, h⟩ := push_adds s ty tag 1 "" "" ""
@@ -427,7 +428,7 @@ theorem pushOpen_tokens (s : IState) (ty tag : String) (a : List (String × Attr
       = (s.tokens ++ if s.pending.isEmpty = true then [] else [mkInlineTok "text" "" 0 lvl' p "" ""]).length := by simp
   refine ⟨if s.pending.isEmpty = true then [] else [mkInlineTok "text" "" 0 lvl' p "" ""],
     (match (mkInlineTok ty tag 1 lvl "" "" "").setAttrs' a with
-      | .mk ty tg n a m l c co mu i _ b h => Tok.mk ty tg n a m l c co mu i md b h), ?_, ?_, ?_, ?_, ?_⟩
+      | .mk ty tg n a m l c co mu i _ b h => Tok.mk ty tg n a m l c co mu i md b h), ?_, ?_, ?_, ?_, ?_, ?_⟩
   · show List.modify _ _ _ = _
     have hm := modify_last (fun t => match t with
       | .mk ty tg n a m l c co mu i _ b h => Tok.mk ty tg n a m l c co mu i md b h) ((mkInlineTok ty tag 1 lvl "" "" "").setAttrs' a)
@@ -435,6 +436,7 @@ theorem pushOpen_tokens (s : IState) (ty tag : String) (a : List (String × Attr
     simp only [List.length_append, List.length_singleton, Nat.add_sub_cancel] at hm
     simp only [List.length_append]
     exact hm
+  · rfl
   · rfl
   · rfl
   · rfl
@@ -453,7 +455,7 @@ theorem linkEmit_adds (ext : IExt) (lx : LExt) {N : Tok → Prop} (hN : LinkN ex
   simp only at h
   generalize hat : ([("href", AttrVal.s (String.ofList href))] ++ if title.isEmpty = true then [] else [("title", AttrVal.s (String.ofList title))]) = attrs at h
   generalize hmd : (if (!label.isEmpty && lx.storeLabels) = true then [("label", String.ofList label)] else ([] : List (String × String))) = metaD at h
-  obtain ⟨flush, ot, ho, hoty, hoat, hoch, hfl⟩ := pushOpen_tokens { s with pos := labelStart, posMax := labelEnd } "link_open" "a" attrs metaD
+  obtain ⟨flush, ot, ho, hoty, hoat, hoch, homd, hfl⟩ := pushOpen_tokens { s with pos := labelStart, posMax := labelEnd } "link_open" "a" attrs metaD
   obtain ⟨o1, o2, o3, o4, o5, d, i, o6, o7⟩ := pushOpen_fields { s with pos := labelStart, posMax := labelEnd } "link_open" "a" attrs metaD
   generalize ({ s with pos := labelStart, posMax := labelEnd } : IState).pushOpen "link_open" "a" attrs metaD = s1 at h ho o1 o2 o3 o4 o5 o6 o7
   have hopen : ∃ new, s1.tokens = s.tokens ++ new ∧ ∀ t ∈ new, N t := by
@@ -463,7 +465,7 @@ theorem linkEmit_adds (ext : IExt) (lx : LExt) {N : Tok → Prop} (hN : LinkN ex
     rcases ht with ht | ht
     · exact hN.flat _ (hfl t ht).2 (.inl (hfl t ht).1)
     · simp only [List.mem_singleton] at ht; subst ht
-      exact hN.linkOpen _ href hoch hoty (by rw [hoat, ← hat]; rfl) hsrc
+      exact hN.linkOpen _ href label hoch hoty (by rw [hoat, ← hat]; rfl) (by rw [homd, ← hmd]) hsrc
   have hk1 : CacheOK { s1 with linkLevel := s1.linkLevel + 1 } := by unfold CacheOK; show ∀ p ∈ s1.cache, _; rw [o5]; exact hk
   unfold innerTokenize at h
   cases hl : tokenizeLoop inner mn ({ s1 with linkLevel := s1.linkLevel + 1 } : IState).posMax
